@@ -34,6 +34,7 @@ type fwInit struct {
 	in       chan c06Event // what the initiator sends (acks) / how its side ends
 	got      []*adminservice.StreamWorkflowReplicationMessagesResponse
 	sendFail bool
+	sendErr  error // what a failing Send reports (default errC06)
 }
 
 func (s *fwInit) Context() context.Context { return s.ctx }
@@ -47,6 +48,9 @@ func (s *fwInit) Recv() (*adminservice.StreamWorkflowReplicationMessagesRequest,
 }
 func (s *fwInit) Send(m *adminservice.StreamWorkflowReplicationMessagesResponse) error {
 	if s.sendFail {
+		if s.sendErr != nil {
+			return s.sendErr
+		}
 		return errC06
 	}
 	s.got = append(s.got, m)
@@ -60,6 +64,7 @@ type fwSrc struct {
 	in        chan c06Event // what the source sends (replication messages) / how its side ends
 	got       []*adminservice.StreamWorkflowReplicationMessagesRequest
 	sendFail  bool
+	sendErr   error // what a failing Send reports (default errC06); grpc client streams report io.EOF once the stream is done
 	closeSend int
 	md        metadata.MD
 	opened    bool
@@ -76,6 +81,9 @@ func (s *fwSrc) Recv() (*adminservice.StreamWorkflowReplicationMessagesResponse,
 }
 func (s *fwSrc) Send(m *adminservice.StreamWorkflowReplicationMessagesRequest) error {
 	if s.sendFail {
+		if s.sendErr != nil {
+			return s.sendErr
+		}
 		return errC06
 	}
 	s.got = append(s.got, m)
@@ -182,7 +190,7 @@ func verifHarness_C06_forwarder() {
 			}
 		case 2:
 			ended = true
-			kind := verifChoose("ending", 9)
+			kind := verifChoose("ending", 11)
 			switch kind {
 			case 0:
 				verifAction("source-eof")
@@ -213,6 +221,16 @@ func verifHarness_C06_forwarder() {
 			case 8:
 				verifAction("unknown-kind-from-initiator")
 				ini.in <- c06Event{req: &adminservice.StreamWorkflowReplicationMessagesRequest{}}
+			case 9:
+				// a grpc client stream whose peer is gone reports io.EOF from Send (the status is on Recv),
+				// while its Recv side stays quiet
+				verifAction("send-to-source-fails-with-eof")
+				src.sendFail, src.sendErr = true, io.EOF
+				ini.in <- c06Event{req: c06Req(9)}
+			case 10:
+				verifAction("send-to-initiator-fails-with-eof")
+				ini.sendFail, ini.sendErr = true, io.EOF
+				src.in <- c06Event{resp: c06Resp(9)}
 			}
 		}
 	}
